@@ -6,16 +6,22 @@ use crate::tok::*;
 // k1/ka share engine shard 1 (FNV-1a mod 16), k2/kb shard 8: same-shard and cross-shard paths are both exercised
 pub const KEYS: &[&[u8]] = &[b"k1", b"k2", b"k3", b"", b"\x00\xffb", b"key:with space", b"ka", b"kb"];
 pub const OTHER_KEYS: &[&[u8]] = &[b"l1", b"s1", b"h1", b"z1", b"x1"];
+// integers in other than their canonical decimal form ("+5", "01", "-0", "00", "+0", " 5", "5 ", "007"): Rust's
+// str::parse takes the signed and the zero-padded ones, Redis (string2ll) none of them; since 5887f54 INCR / DECR /
+// INCRBY / DECRBY refuse them as the stored value and as the increment
 pub const VALUES: &[&[u8]] = &[b"", b"a", b"hello", b"10", b"-1", b"9223372036854775807", b"-9223372036854775808",
-    b"007", b" 5", b"+5", b"1.5", b"\x00\xff\r\n", b"9223372036854775806", b"abc def"];
+    b"007", b" 5", b"+5", b"1.5", b"\x00\xff\r\n", b"9223372036854775806", b"abc def",
+    b"01", b"-0", b"00", b"+0", b"5 ", b"0", b"-01", b"-"];
 pub const INTS: &[&[u8]] = &[b"0", b"1", b"-1", b"5", b"9223372036854775807", b"-9223372036854775808", b"abc", b"",
-    b"9223372036854775808", b"-9223372036854775807", b"+3", b"2", b"1e3"];
+    b"9223372036854775808", b"-9223372036854775807", b"+3", b"2", b"1e3",
+    b"+1", b"01", b"-0", b"00", b"+0", b" 1", b"1 ", b"-01", b"-"];
 pub const IDX: &[&[u8]] = &[b"0", b"1", b"-1", b"2", b"-2", b"3", b"-3", b"5", b"-5", b"100", b"-100",
     b"9223372036854775807", b"-9223372036854775808", b"x", b"4", b"-4", b"-6", b"6"];
 pub const OFFS: &[&[u8]] = &[b"0", b"1", b"3", b"10", b"536870913", b"18446744073709551615", b"-1", b"7", b"abc", b"536870912"];
-pub const TTLS: &[&[u8]] = &[b"100", b"1000", b"18446744073709551615", b"9223372036854775807", b"abc", b"-1", b"", b"100000"];
+// 0 and the negative counts: refused by SET EX / PX (48bcb4d) and by SETEX / PSETEX (0bd9e72)
+pub const TTLS: &[&[u8]] = &[b"100", b"1000", b"18446744073709551615", b"9223372036854775807", b"abc", b"-1", b"", b"100000", b"0", b"-5", b"00"];
 // millisecond TTLs: never short enough to expire during a history (expiry itself is C02's subject)
-pub const TTLS_MS: &[&[u8]] = &[b"100000", b"1000000", b"18446744073709551615", b"9223372036854775807", b"abc", b"-1", b"", b"9223372036854775807000"];
+pub const TTLS_MS: &[&[u8]] = &[b"100000", b"1000000", b"18446744073709551615", b"9223372036854775807", b"abc", b"-1", b"", b"9223372036854775807000", b"0", b"-5", b"00"];
 pub const PATTERNS: &[&[u8]] = &[b"*", b"k*", b"k?", b"?1", b"[kl]*", b"k[1-2]", b"[^k]*", b"*1", b"\\k1", b"k\\*", b"", b"*:*", b"k[", b"**1", b"*?*",
     // classes as Redis reads them (5de9d19): ranges, negated ranges, reversed range, unterminated, escape inside
     b"k[a-b]", b"k[^1-2]", b"[z-a]*", b"k[12", b"k[\\1]", b"k[]1]", b"?[a-z1]", b"*[ab]"];
@@ -34,11 +40,15 @@ pub fn gen_cmd(r: &mut Rng) -> Vec<Vec<u8>> {
         0 | 1 => { // SET with options
             let mut c = vec![v(b"SET"), v(k), v(pick(r, VALUES))];
             for _ in 0..r.below(3) {
-                match r.below(6) {
+                match r.below(9) {
                     0 => c.push(v(b"NX")), 1 => c.push(v(b"xx")),
                     2 => { c.push(v(b"EX")); c.push(v(pick(r, TTLS))); }
                     3 => { c.push(v(b"px")); c.push(v(pick(r, TTLS_MS))); }
                     4 => c.push(v(b"EX")),
+                    // EX and PX together, in either order (a syntax error since 0e6458f), and one of them twice (the later wins)
+                    5 => { c.push(v(b"EX")); c.push(v(pick(r, TTLS))); c.push(v(b"PX")); c.push(v(pick(r, TTLS_MS))); }
+                    6 => { c.push(v(b"PX")); c.push(v(pick(r, TTLS_MS))); c.push(v(b"ex")); c.push(v(pick(r, TTLS))); }
+                    7 => { c.push(v(b"EX")); c.push(v(b"100")); c.push(v(b"EX")); c.push(v(pick(r, TTLS))); }
                     _ => c.push(v(b"BOGUS")),
                 }
             }
@@ -56,11 +66,9 @@ pub fn gen_cmd(r: &mut Rng) -> Vec<Vec<u8>> {
         12 => vec![v(b"STRLEN"), v(k)],
         13 | 14 => vec![v(b"GETRANGE"), v(k), v(pick(r, IDX)), v(pick(r, IDX))],
         15 => {
-            // offset = the 512 MB limit with an EMPTY value is accepted and materialises a 512 MB string
-            // (the extracted model cannot build it, the reply does not fit the client's buffer): use a
-            // non-empty value there, which is refused by the same limit check
-            let off = pick(r, OFFS); let val = pick(r, VALUES);
-            let val = if off == b"536870912" && val.is_empty() { &b"a"[..] } else { val };
+            // one time in four an EMPTY value: it changes nothing and answers the current length, whatever the offset
+            // (e0df64a: offsets 0, inside, at the end, beyond, beyond the 512 MB limit, not a number)
+            let off = pick(r, OFFS); let val = if r.chance(1, 4) { &b""[..] } else { pick(r, VALUES) };
             vec![v(b"SETRANGE"), v(k), v(off), v(val)]
         }
         16 => vec![v(b"INCR"), v(k)],
@@ -132,6 +140,40 @@ pub fn gen(seed: u64, n: usize, _tier: &str) -> Vec<Case> {
             }
         }
         cases.push(Case { id: format!("ren-{}", ci), ops, outs: vec![] });
+    }
+    // the repaired deviations from the reference (e0df64a, 0e6458f, 0bd9e72, 5887f54), as fixed histories
+    {
+        let mut ops = vec![conn_op(1), cmd_op(1, &[b"RPUSH", b"l1", b"a", b"b", b"c"])];
+        // SETRANGE with an empty value: offsets 0, inside, at the end, beyond, beyond 512 MB; missing key, other type
+        ops.push(cmd_op(1, &[b"SET", b"k1", b"abc"]));
+        for off in [&b"0"[..], b"1", b"3", b"10", b"536870912", b"536870913", b"18446744073709551615", b"-1", b"x"] {
+            ops.push(cmd_op(1, &[b"SETRANGE", b"k1", off, b""])); ops.push(cmd_op(1, &[b"GET", b"k1"]));
+            ops.push(cmd_op(1, &[b"SETRANGE", b"nokey", off, b""])); ops.push(cmd_op(1, &[b"EXISTS", b"nokey"]));
+            ops.push(cmd_op(1, &[b"SETRANGE", b"l1", off, b""]));
+        }
+        ops.push(cmd_op(1, &[b"SETRANGE", b"k1", b"5", b"x"])); ops.push(cmd_op(1, &[b"GET", b"k1"]));
+        // SET with EX and PX together
+        for opts in [&[&b"EX"[..], b"10", b"PX", b"100000"][..], &[b"PX", b"100000", b"EX", b"10"], &[b"ex", b"10", b"NX", b"px", b"100000"],
+                     &[b"EX", b"10", b"EX", b"20"], &[b"PX", b"100000", b"PX", b"200000"], &[b"EX", b"0", b"PX", b"100000"], &[b"EX", b"10", b"PX"]] {
+            let mut c: Vec<&[u8]> = vec![b"SET", b"k2", b"x"]; c.extend_from_slice(opts);
+            ops.push(cmd_op(1, &c)); ops.push(cmd_op(1, &[b"GET", b"k2"])); ops.push(cmd_op(1, &[b"TTL", b"k2"])); ops.push(cmd_op(1, &[b"DEL", b"k2"]));
+        }
+        // SETEX / PSETEX with 0 and negative counts
+        for t in [&b"0"[..], b"-1", b"00", b"-0", b"+0", b"1000"] {
+            ops.push(cmd_op(1, &[b"SETEX", b"k3", t, b"v"])); ops.push(cmd_op(1, &[b"EXISTS", b"k3"])); ops.push(cmd_op(1, &[b"DEL", b"k3"]));
+            ops.push(cmd_op(1, &[b"PSETEX", b"k3", t, b"v"])); ops.push(cmd_op(1, &[b"EXISTS", b"k3"])); ops.push(cmd_op(1, &[b"DEL", b"k3"]));
+        }
+        // integers that are not in canonical form: as the stored value and as the increment
+        for x in [&b"+5"[..], b"01", b"-0", b"00", b"+0", b" 5", b"5 ", b"007", b"-01", b"-", b"", b"0", b"-5", b"5", b"9223372036854775807", b"-9223372036854775808", b"9223372036854775808"] {
+            ops.push(cmd_op(1, &[b"SET", b"ka", x]));
+            ops.push(cmd_op(1, &[b"INCR", b"ka"])); ops.push(cmd_op(1, &[b"DECR", b"ka"]));
+            ops.push(cmd_op(1, &[b"INCRBY", b"ka", b"1"])); ops.push(cmd_op(1, &[b"DECRBY", b"ka", b"1"])); ops.push(cmd_op(1, &[b"GET", b"ka"]));
+            ops.push(cmd_op(1, &[b"SET", b"kb", b"10"]));
+            ops.push(cmd_op(1, &[b"INCRBY", b"kb", x])); ops.push(cmd_op(1, &[b"DECRBY", b"kb", x])); ops.push(cmd_op(1, &[b"GET", b"kb"]));
+            ops.push(cmd_op(1, &[b"INCRBY", b"nokey", x])); ops.push(cmd_op(1, &[b"DEL", b"nokey"]));
+        }
+        dump_ops(1, &mut ops);
+        cases.push(Case { id: "fix-0".to_string(), ops, outs: vec![] });
     }
     for id in 0..n {
         let mut ops = vec![conn_op(1)];
